@@ -25,6 +25,10 @@ type Graph struct {
 
 	factsCache   *Solution[Facts]
 	factsPSCache *Solution[FactsPS]
+
+	// inlined graphs (inline.go): every location of a node (helpers expanded at several call sites), what was expanded
+	nodeAll map[ast.Node][]nodeLoc
+	inl     *inlineInfo
 }
 
 type nodeLoc struct {
@@ -371,18 +375,62 @@ func (sol *Solution[S]) Before(n ast.Node) (S, bool) {
 	if !ok {
 		return zero, false
 	}
-	loc := g.nodeAt[cn]
-	if !sol.has[loc.b] {
-		return zero, false
+	locs := []nodeLoc{g.nodeAt[cn]}
+	if all := g.nodeAll[cn]; len(all) > 1 {
+		locs = all // a helper expanded at several call sites: join over its copies
 	}
-	st := sol.in[loc.b]
-	for i := 0; i < loc.i; i++ {
-		if g.isHoistedComm(loc.b.Nodes[i]) {
+	var acc S
+	found := false
+	for _, loc := range locs {
+		if !sol.has[loc.b] {
 			continue
 		}
-		st = sol.l.Step(st, Step{Kind: StNode, Node: loc.b.Nodes[i]})
+		st := sol.in[loc.b]
+		for i := 0; i < loc.i; i++ {
+			if g.isHoistedComm(loc.b.Nodes[i]) {
+				continue
+			}
+			st = sol.l.Step(st, Step{Kind: StNode, Node: loc.b.Nodes[i]})
+		}
+		if !found {
+			acc, found = st, true
+		} else {
+			acc = sol.l.Join(acc, st)
+		}
 	}
-	return st, true
+	if !found {
+		return zero, false
+	}
+	return acc, true
+}
+
+// BeforeEach returns the state before n at every copy of n in the graph (one per call site for a node of a helper
+// that was expanded several times; one element otherwise). Unreachable copies are skipped.
+func (sol *Solution[S]) BeforeEach(n ast.Node) []S {
+	g := sol.g
+	cn, ok := g.cfgNodeOf(n)
+	if !ok {
+		return nil
+	}
+	locs := []nodeLoc{g.nodeAt[cn]}
+	if all := g.nodeAll[cn]; len(all) > 1 {
+		locs = all
+	}
+	var out []S
+	for _, loc := range locs {
+		if !sol.has[loc.b] {
+			continue
+		}
+		st := sol.in[loc.b]
+		for i := 0; i < loc.i; i++ {
+			if g.isHoistedComm(loc.b.Nodes[i]) {
+				continue
+			}
+			st = sol.l.Step(st, Step{Kind: StNode, Node: loc.b.Nodes[i]})
+		}
+		out = append(out, st)
+	}
+	return out
 }
 
 // blockFor finds the live block of the given kind created for stmt.
@@ -689,6 +737,9 @@ func (g *Graph) condCallee(e ast.Node) (*FuncInfo, bool) {
 	if !ok {
 		return nil, false
 	}
+	if g.inl != nil && g.inl.calls[c] {
+		return nil, false
+	}
 	fn := calleeOf(g.Info, c)
 	if fn == nil {
 		return nil, false
@@ -783,6 +834,9 @@ func (g *Graph) eventsAt(cl Classifier, depth int, cache map[*FuncInfo]*evSummar
 			c, ok := x.(*ast.CallExpr)
 			if !ok {
 				return true
+			}
+			if g.inl != nil && g.inl.calls[c] {
+				return true // the callee's own steps are part of this graph
 			}
 			fn := calleeOf(g.Info, c)
 			if fn == nil {
@@ -1125,7 +1179,7 @@ func (g *Graph) okHelperAssign(n ast.Node) (string, *FuncInfo) {
 		return "", nil
 	}
 	c, isCall := ast.Unparen(as.Rhs[0]).(*ast.CallExpr)
-	if !isCall {
+	if !isCall || g.inl != nil && g.inl.calls[c] {
 		return "", nil
 	}
 	fn := calleeOf(g.Info, c)
